@@ -78,6 +78,6 @@ TInit == tb \in 1..NB /\ ti = 0 /\ Init
 TNext == ti = 0 /\ ti' \in { g \in 1..NT : (g % NB) + 1 = tb } /\ UNCHANGED <<tb, vars>>
 TSpec == TInit /\ [][TNext]_<<tb, ti, vars>>
 Judged == ti = 0 \/ LET t == Traces[ti] rp == RoutePairs(t) IN
-   PrintT(ToJson([tid |-> t.tid, v |-> JudgeTrace(t),
+   PrintT(ToJson([tid |-> t.tid, v |-> JudgeTrace(t), probe |-> t.probe_ok,
                   c06 |-> [bad |-> SetToSeq(rp.bad), num |-> SetToSeq(rp.num), exprbad |-> SetToSeq(rp.exprbad), pairs |-> rp.pairs]]))
 =============================================================================
